@@ -13,6 +13,9 @@
 (* Block kinds (the harness gives them bytes):                              *)
 (*   ok        well-formed, one HEADERS frame; adds one dynamic entry       *)
 (*   okcont    the same over HEADERS + CONTINUATION                         *)
+(*   sizeupd   the same, led by a dynamic table size update (legal only at  *)
+(*             the very beginning of a block: the decoder must know that a  *)
+(*             new block has begun, whatever became of the previous one)    *)
 (*   upper     a field name with an upper-case letter  -> stream error      *)
 (*   badvalue  a field value with a line feed          -> stream error      *)
 (*   latepseudo a pseudo-header after a regular field  -> stream error      *)
@@ -24,7 +27,7 @@
 (***************************************************************************)
 EXTENDS Naturals, Sequences
 CONSTANT MaxBlocks
-Kinds == {"ok", "okcont", "upper", "badvalue", "latepseudo", "toolarge", "ref"}
+Kinds == {"ok", "okcont", "sizeupd", "upper", "badvalue", "latepseudo", "toolarge", "ref"}
 
 VARIABLES hist,    \* kinds of the blocks read so far
           table,   \* positions whose entry is in the dynamic table, oldest first
@@ -38,7 +41,7 @@ Read(k) ==
   /\ hist' = Append(hist, k)
   /\ LET n == Len(hist) + 1 IN
      /\ table' = IF k = "ref" THEN table ELSE Append(table, n)
-     /\ out' = CASE k \in {"ok", "okcont"} -> [r |-> "fields", dyn |-> <<n>>]
+     /\ out' = CASE k \in {"ok", "okcont", "sizeupd"} -> [r |-> "fields", dyn |-> <<n>>]
                  [] k = "ref" -> [r |-> "fields", dyn |-> table]
                  [] k = "toolarge" -> [r |-> "truncated", dyn |-> <<>>]
                  [] OTHER -> [r |-> "stream_error", dyn |-> <<>>]
@@ -46,6 +49,6 @@ Next == \E k \in Kinds : Read(k)
 Spec == Init /\ [][Next]_vars
 
 \* the outcome of a block does not depend on what kinds of blocks came before, except through the table a ref block shows
-OwnJudgement == out.r = "none" \/ out.r = (CASE hist[Len(hist)] \in {"ok", "okcont", "ref"} -> "fields" [] hist[Len(hist)] = "toolarge" -> "truncated" [] OTHER -> "stream_error")
+OwnJudgement == out.r = "none" \/ out.r = (CASE hist[Len(hist)] \in {"ok", "okcont", "sizeupd", "ref"} -> "fields" [] hist[Len(hist)] = "toolarge" -> "truncated" [] OTHER -> "stream_error")
 TableGrowsWithEveryBlock == Len(table) = Len(SelectSeq(hist, LAMBDA k : k # "ref"))
 =============================================================================
